@@ -2,6 +2,7 @@ package nfs41sim
 
 import (
 	"fmt"
+	"runtime/debug"
 	"sort"
 	"strings"
 	"testing"
@@ -148,7 +149,7 @@ func filterStates(in []stateRef, want string) []stateRef {
 	return out
 }
 
-var sidDeviations = []string{"seq0", "old", "future", "otherfile", "foreign", "dead", "anon", "bypass", "wrongkind", "garbage"}
+var sidDeviations = []string{"seq0", "old", "future", "otherfile", "foreign", "dead", "anon", "bypass", "wrongkind", "garbage", "current_unset"}
 
 // pickSID chooses the state ID (and the file handle to go with it) for
 // an operation of incarnation inc that wants an open or a lock state ID.
@@ -159,6 +160,10 @@ func (w *world) pickSID(inc *incM, want string) (nfsv4.Stateid4, []byte, string,
 	if len(right) > 0 && !w.pct("sidDeviation", w.p.devPct) {
 		s := pick(w, "state", right)
 		return s.sid, s.fh, "cur", true
+	}
+	if len(right) == 0 && !w.pct("sidDeviationWithoutState", 25) {
+		// Nothing to refer to yet: the caller establishes state first.
+		return nfsv4.Stateid4{}, nil, "", false
 	}
 	anyFH, ok := w.pickFH(true)
 	if !ok {
@@ -214,6 +219,10 @@ func (w *world) pickSID(inc *incM, want string) (nfsv4.Stateid4, []byte, string,
 		}
 	case "bypass":
 		return bypassSID, anyFH, dev, true
+	case "current_unset":
+		// The "current state ID" special value without a preceding
+		// operation that set one.
+		return currentSID, anyFH, dev, true
 	case "garbage":
 		g := mkStateID(1, 1)
 		g.Other[10] = 0x77
@@ -269,6 +278,8 @@ func (w *world) buildTemplate(inc *incM, kind string) *tmpl {
 	case "open":
 		how := pick(w, "how", []string{"nocreate", "nocreate", "nocreate", "nocreate", "nocreate", "unchecked", "unchecked", "unchecked_trunc", "guarded", "guarded", "exclusive4", "exclusive4_1"})
 		return w.tOpen(inc, pick(w, "name", fileNames), pick(w, "openOwner", openOwners), pick(w, "access", accesses), how)
+	case "open_then":
+		return w.tOpenThen(inc, pick(w, "name", fileNames), pick(w, "openOwner", openOwners), pick(w, "access", accesses), pick(w, "then", []string{"read", "write", "close"}))
 	case "open_fh":
 		fh, ok := w.pickFH(true)
 		if !ok {
@@ -278,25 +289,25 @@ func (w *world) buildTemplate(inc *incM, kind string) *tmpl {
 	case "close":
 		sid, fh, how, ok := w.pickSID(inc, "open")
 		if !ok {
-			return w.tLookup(pick(w, "name", fileNames))
+			return w.buildTemplate(inc, "open")
 		}
 		return w.tClose(inc, fh, sid, how)
 	case "downgrade":
 		sid, fh, how, ok := w.pickSID(inc, "open")
 		if !ok {
-			return w.tLookup(pick(w, "name", fileNames))
+			return w.buildTemplate(inc, "open")
 		}
 		return w.tDowngrade(inc, fh, sid, how, pick(w, "access", accesses))
 	case "lock_new":
 		sid, fh, how, ok := w.pickSID(inc, "open")
 		if !ok {
-			return w.tLookup(pick(w, "name", fileNames))
+			return w.buildTemplate(inc, "open")
 		}
 		return w.tLock(inc, fh, true, sid, how, pick(w, "lockOwner", lockOwners), w.draw("lockType", ltRead, ltWrite), w.pct("lockWait", 20), w.drawRange())
 	case "lock_existing":
 		sid, fh, how, ok := w.pickSID(inc, "lock")
 		if !ok {
-			return w.tLookup(pick(w, "name", fileNames))
+			return w.buildTemplate(inc, "lock_new")
 		}
 		return w.tLock(inc, fh, false, sid, how, "", w.draw("lockType", ltRead, ltWrite), w.pct("lockWait", 20), w.drawRange())
 	case "lockt":
@@ -308,7 +319,7 @@ func (w *world) buildTemplate(inc *incM, kind string) *tmpl {
 	case "locku":
 		sid, fh, how, ok := w.pickSID(inc, "lock")
 		if !ok {
-			return w.tLookup(pick(w, "name", fileNames))
+			return w.buildTemplate(inc, "lock_new")
 		}
 		return w.tLockU(inc, fh, sid, how, w.drawRange())
 	case "free_stateid":
@@ -318,7 +329,7 @@ func (w *world) buildTemplate(inc *incM, kind string) *tmpl {
 		}
 		sid, _, how, ok := w.pickSID(inc, want)
 		if !ok {
-			return w.tLookup(pick(w, "name", fileNames))
+			return w.buildTemplate(inc, "lock_new")
 		}
 		return w.tFreeStateID(inc, sid, how)
 	case "test_stateid":
@@ -344,6 +355,9 @@ func (w *world) buildTemplate(inc *incM, kind string) *tmpl {
 			}
 		} else {
 			sid, fh, how, ok = w.pickSID(inc, "any")
+			if !ok {
+				return w.buildTemplate(inc, "open")
+			}
 		}
 		if !ok {
 			return w.tLookup(pick(w, "name", fileNames))
@@ -357,6 +371,15 @@ func (w *world) buildTemplate(inc *incM, kind string) *tmpl {
 		fh, ok := w.pickFH(true)
 		if !ok {
 			return w.tLookup(pick(w, "name", fileNames))
+		}
+		var unlinked []fhRec
+		for _, k := range w.leafFHs() {
+			if !w.leafLinked(k.leaf) {
+				unlinked = append(unlinked, k)
+			}
+		}
+		if len(unlinked) > 0 && w.pct("probeUnlinked", 70) {
+			fh = pick(w, "fh", unlinked).fh
 		}
 		return w.tProbe(fh)
 	case "noop":
@@ -372,7 +395,7 @@ func (w *world) buildTemplate(inc *incM, kind string) *tmpl {
 	panic("nfs41sim: unknown template " + kind)
 }
 
-var templateKinds = []string{"open", "open", "open_fh", "close", "downgrade", "lock_new", "lock_existing", "lockt", "locku", "free_stateid", "test_stateid", "read", "write", "setattr", "remove", "lookup", "probe", "noop", "reclaim_complete"}
+var templateKinds = []string{"open", "open", "open_then", "open_fh", "close", "downgrade", "lock_new", "lock_existing", "lockt", "locku", "free_stateid", "test_stateid", "read", "write", "setattr", "remove", "lookup", "probe", "noop", "reclaim_complete"}
 
 // ---------------------------------------------------------------- actions
 
@@ -597,6 +620,10 @@ func (w *world) shutdown() {
 	}
 	for _, key := range sortedKeys(inc.opens) {
 		o := inc.opens[key]
+		if o == nil || !sess.live() {
+			// The lease ran out in the meantime.
+			continue
+		}
 		w.sendSeq(sess, 0, sess.slots[0].lastSeq+1, "new", w.tClose(inc, o.fh, mkStateID(o.seq, o.other), "cur"), false, map[string]bool{}, nil)
 	}
 	for _, s := range inc.sessions {
@@ -615,6 +642,9 @@ func (w *world) shutdown() {
 // every client vanishes, the lease time passes and one more call is
 // made: nothing may be retained.
 func (w *world) finalDrain() {
+	if len(w.grantedOwners) >= 2 {
+		w.label("lock_owners_granted>=2")
+	}
 	for {
 		parks := w.pendingParks()
 		if len(parks) == 0 {
@@ -717,7 +747,7 @@ func formatScript(script []step) string {
 // runInBubble executes body inside a synctest bubble with a fresh world
 // and converts violations, panics and bubble deadlocks into a failure
 // message.
-func runInBubble(t *testing.T, rt *rapid.T, p *profile, body func(w *world)) (*caseResult, string) {
+func runInBubble(t *testing.T, mk func() *world, body func(w *world)) (*caseResult, string) {
 	res := &caseResult{}
 	var failure string
 	var rapidPanic any
@@ -745,7 +775,7 @@ func runInBubble(t *testing.T, rt *rapid.T, p *profile, body func(w *world)) (*c
 					} else if isRapidPanic(r) {
 						rapidPanic = r
 					} else {
-						failure = fmt.Sprintf("panic in the harness or the code under test: %v", r)
+						failure = fmt.Sprintf("panic in the harness or the code under test: %v\n%s", r, debug.Stack())
 					}
 				}
 				if w != nil {
@@ -760,7 +790,7 @@ func runInBubble(t *testing.T, rt *rapid.T, p *profile, body func(w *world)) (*c
 					res.script, res.labels, res.excl = w.script, w.labels, w.excl
 				}
 			}()
-			w = newWorld(rt, p)
+			w = mk()
 			body(w)
 		})
 	}()
@@ -771,11 +801,12 @@ func runInBubble(t *testing.T, rt *rapid.T, p *profile, body func(w *world)) (*c
 }
 
 func runCase(t *testing.T, rt *rapid.T, p *profile) *caseResult {
-	res, failure := runInBubble(t, rt, p, func(w *world) {
+	res, failure := runInBubble(t, func() *world { return newWorld(rt, p) }, func(w *world) {
 		n := w.draw("steps", p.steps[0], p.steps[1])
 		for i := 0; i < n; i++ {
 			w.doStep(pick(w, "op", p.ops))
 		}
+		w.labels["script_steps"] = len(w.script)
 		w.finalDrain()
 	})
 	if failure != "" {
@@ -793,6 +824,8 @@ func labelList(l map[string]int) []string {
 }
 
 func recordCase(rec *simkit.Recorder, p *profile, res *caseResult) {
+	rec.LabelN("total_script_steps", res.labels["script_steps"])
+	delete(res.labels, "script_steps")
 	for _, k := range sortedKeys(res.excl) {
 		for i := 0; i < res.excl[k]; i++ {
 			rec.Exclude(k)
